@@ -24,6 +24,13 @@ func Sleep(d time.Duration) {
 		w.yield("sleep0")
 		return
 	}
+	if q := time.Duration(w.Cfg.QuantumNS); d <= q {
+		// the clock advances one quantum per scheduling step: a sleep no longer than that would be
+		// over at the very decision that suspends the sleeper, and under a priority policy a task
+		// polling with such sleeps (Close waiting for a pass to stop) would never let the task it
+		// waits for run. A real Sleep always gives up the processor; sleeping longer is legal.
+		d = q + 1
+	}
 	until := w.now + int64(d)
 	w.addTimer(d, nil, nil) // makes the clock jump here when everything is blocked
 	w.block("sleep", func() bool { return w.now >= until })
